@@ -5,6 +5,8 @@ import DendroModel.Theory.C15Age
 import DendroModel.Theory.C15Build
 import DendroModel.Theory.C15Ptr
 import DendroModel.Theory.C15Level
+import DendroModel.Theory.C15Apply
+import DendroModel.Theory.C15Heap
 /-! C15 — property theorems: every traversal machine yields exactly its defining order, for every
 tree, every start node (a start node is the root of the `T` the machine is run on) and every filter.
 Only property theorems live in `namespace DendroModel.C15` of this file; helper lemmas are in
@@ -937,6 +939,8 @@ theorem apply_dyck (t : T) :
 ancestors up to the start node together with the code's own test "is the node below the LAST child" and climbs that
 chain exactly as the `while` loop of `Node.apply` does (`climbZip`), emits the same trace as the closer-list rendering
 `applyTrace`, hence the bracket sequence of the start subtree.
+(The gap described next is CLOSED by `apply_pointer_refinement` / `apply_zipper_refinement` further down; this theorem is
+kept under its old name because obligations are never deleted.)
 `_partial` with respect to focus item 2: the remaining step — reading the zipper context off a parent array
 (`isLast` = `kidsOf(parent).getLast? = node`, the chain = iterated parent pointers, which needs `buildTree`'s fuel
 adequacy and a fuel-insensitive climb) — is not proved; it stays tied by the per-case comparison. -/
@@ -1107,5 +1111,197 @@ example : (ancIter (fun t => t.id != 1) true (buildTree 6 #[-1, 0, 1, 0, 5, 4] #
     = some (ancPtrIter (fun i => i != 1) true #[-1, 0, 1, 0, 5, 4] (buildTree 6 #[-1, 0, 1, 0, 5, 4]
       #[none, none, none, none, none, none] #[none, none, none, none, none, none] #[none, none, none, none, none, none] 0).size 2) :=
   ancestor_pointer_refinement_build 6 #[-1, 0, 1, 0, 5, 4] _ _ _ 0 (by decide) 2 _ (fun i => i != 1) true rfl
+
+end DendroModel.C15
+
+/-! ## last theorem round: `Node.apply` refined from the pointer-level loop; independence of the iterator machines -/
+namespace DendroModel.C15
+open DendroModel DendroModel.C15.Aux DendroModel.C15.ExtAux DendroModel.C15.BuildAux DendroModel.C15.PtrAux
+  DendroModel.C15.LevelAux DendroModel.C15.ApplyAux
+
+/-- the zipper machine does not depend on its fuel once it covers the subtree -/
+theorem applyZipRun_fuel (t : T) (f : Nat) (hf : t.size ≤ f) : applyZipRun f [(t, [])] = applyZipTrace t := by
+  unfold applyZipTrace
+  rw [applyZipRun_eq, applyZipRun_eq, applyRun_eq f _ (by simpa [forget, applyWeight] using hf),
+    applyRun_eq t.size _ (by simp [forget, applyWeight])]
+
+/-- below the parser: for a tree built with at least `par.size` fuel from an in-range entry `r` with parent -1, and any
+start node `find?` returns, the literal loop of `Node.apply` over the parent array (`applyPtrTrace`: explicit stack of
+node ids, `kidsOf` = the child lists, the climb `while node is not self and parent._child_nodes[-1] is node` through
+`par[node]`) emits exactly the trace of the zipper machine, hence of `applyTrace`, hence the bracket sequence -/
+theorem apply_pointer_refinement_build (f : Nat) (par : Array Int) (tax : Array (Option Nat)) (lens : Array (Option Frac))
+    (labs : Array (Option String)) (r : Nat) (hr : par[r]! = -1) (hrlt : r < par.size) (hfuel : par.size ≤ f)
+    (start : Nat) (t : T) (hf : (buildTree f par tax lens labs r).find? start = some t) :
+    applyPtrTrace par start = applyZipTrace t ∧ applyPtrTrace par start = applyTrace t ∧ applyPtrTrace par start = br t := by
+  have hac := acyc_root par r hr
+  have hsub := find?_sublist start _ t hf
+  have hnd : ((T.nodes t).map T.id).Nodup := build_subtree_ids_distinct f par tax lens labs r hr start t hf
+  have hid : t.id = start := find?_id start _ t hf
+  have hfaith := build_faithful par tax lens labs f r [] hac (by simp) (by simpa using hrlt) (by simp) (by simpa using hfuel)
+  have hlt : ∀ a ∈ (T.nodes t).map T.id, a < par.size := by
+    intro a ha
+    have ha' : a ∈ idsOf (buildTree f par tax lens labs r) := (hsub.map T.id).subset ha
+    rcases ids_lt par tax lens labs f r a ha' with rfl | h
+    · exact hrlt
+    · exact h
+  have hsz : t.size ≤ par.size := by
+    have := length_le_of_nodup_lt _ par.size hnd hlt
+    rw [size_eq_length]; simpa using this
+  have hinv : ∀ e ∈ [((t, []) : T × List (Nat × Bool))], Inv par start e := by
+    intro e he
+    simp only [List.mem_singleton] at he
+    subst he
+    refine ⟨fun b hb => hfaith b (hsub.subset hb), by simp [Ctx, hid], by simpa using hsz, ?_⟩
+    intro y hy
+    rw [← hid]
+    exact hid_of_nodup t hnd y hy
+  have h1 : applyPtrTrace par start = applyZipTrace t := by
+    unfold applyPtrTrace
+    have := applyPtrRun_eq par start par.size [(t, [])] hinv
+    simp only [List.map_cons, List.map_nil, hid] at this
+    rw [this, applyZipRun_fuel t par.size hsz]
+  have h2 := apply_zipper_refinement_partial t
+  exact ⟨h1, h1.trans h2.1, h1.trans h2.2⟩
+
+/-- the same for every protocol tree and every start the driver can pick: `parseTree` gives fuel `n+1 ≥ par.size` and
+a seed index inside the array (`parseTree_build_fuel`).  The driver runs `applyPtrTrace` as kind `applyptr`. -/
+theorem apply_pointer_refinement (toks : List String) (tree : T) (rest : List String) (par : Array Int) (start : Nat) (t : T)
+    (h : parseTree toks = some (tree, rest)) (hp : parsePar toks = some par) (hf : tree.find? start = some t) :
+    applyPtrTrace par start = applyZipTrace t ∧ applyPtrTrace par start = applyTrace t ∧ applyPtrTrace par start = br t := by
+  obtain ⟨f, par', tax, lens, labs, r, hp', rfl, hr, hrlt, hfuel⟩ := parseTree_build_fuel toks tree rest h
+  rw [hp] at hp'
+  simp only [Option.some.injEq] at hp'
+  subst hp'
+  exact apply_pointer_refinement_build f par tax lens labs r hr hrlt hfuel start t hf
+
+/-- `apply_zipper_refinement_partial` without the gap: the zipper machine = the closer-list machine = the brackets, AND
+(`apply_pointer_refinement`) the zipper is what the pointer-level loop computes on every protocol tree -/
+theorem apply_zipper_refinement (toks : List String) (tree : T) (rest : List String) (par : Array Int) (start : Nat) (t : T)
+    (h : parseTree toks = some (tree, rest)) (hp : parsePar toks = some par) (hf : tree.find? start = some t) :
+    applyZipTrace t = applyPtrTrace par start ∧ applyZipTrace t = applyTrace t ∧ applyZipTrace t = br t :=
+  ⟨(apply_pointer_refinement toks tree rest par start t h hp hf).1.symm, (apply_zipper_refinement_partial t).1,
+    (apply_zipper_refinement_partial t).2⟩
+
+/-- kernel-checked instance of `apply_pointer_refinement_build`: an array with an unreachable 2-cycle (entries 4, 5),
+seed 0, started at node 1 (a non-root node that is NOT a last child, with a unary chain below) -/
+example : applyPtrTrace #[-1, 0, 1, 0, 5, 4] 1 = br (buildTree 5 #[-1, 0, 1, 0, 5, 4] #[none, none, none, none, none, none]
+    #[none, none, none, none, none, none] #[none, none, none, none, none, none] 1) :=
+  (apply_pointer_refinement_build 6 #[-1, 0, 1, 0, 5, 4] #[none, none, none, none, none, none]
+    #[none, none, none, none, none, none] #[none, none, none, none, none, none] 0 (by decide) (by decide) (by decide) 1 _ rfl).2.2
+
+example : applyPtrTrace #[-1, 0, 1, 0, 5, 4] 0 = [.before 0, .before 1, .leaf 2, .after 1, .leaf 3, .after 0] := by decide
+
+end DendroModel.C15
+
+namespace DendroModel.C15
+open DendroModel DendroModel.C15.Aux DendroModel.C15.BuildAux DendroModel.C15.PtrAux DendroModel.C15.ApplyAux
+  DendroModel.C15.HeapAux
+
+/-- fuel adequacy of the parser's `buildTree`, for every start the driver can pick: each node of the subtree lists
+exactly the children the parent array gives it (no node is cut off by the fuel), and the subtree's root has the id
+asked for -/
+theorem protocol_faithful (toks : List String) (tree : T) (rest : List String) (par : Array Int) (start : Nat) (t : T)
+    (h : parseTree toks = some (tree, rest)) (hp : parsePar toks = some par) (hf : tree.find? start = some t) :
+    (∀ b ∈ T.nodes t, b.cs.map T.id = kidsOf par b.id) ∧ t.id = start := by
+  obtain ⟨f, par', tax, lens, labs, r, hp', rfl, hr, hrlt, hfuel⟩ := parseTree_build_fuel toks tree rest h
+  rw [hp] at hp'
+  simp only [Option.some.injEq] at hp'
+  subst hp'
+  have hfaith := build_faithful par tax lens labs f r [] (acyc_root par r hr) (by simp) (by simpa using hrlt) (by simp)
+    (by simpa using hfuel)
+  exact ⟨fun b hb => hfaith b ((find?_sublist start _ t hf).subset hb), find?_id start _ t hf⟩
+
+/-- frame: one `next()` of the level-order generator returns a heap in which every node's child list and every other
+generator's private list are what they were (the machine as written cannot do what seeded change C15-2 did) -/
+theorem generator_frame (h : Heap) (s : LvSt) :
+    (lvNext h s).1.kids = h.kids ∧ ∀ a, a ≠ s.q → (lvNext h s).1.priv a = h.priv a :=
+  lvNext_frame h s
+
+/-- independence: two level-order generators with different private lists, stepped in ANY interleaving on the same
+heap (drained, abandoned, alternating …): each one returns exactly what it returns when it runs alone for as many
+calls — running one machine does not change what the other yields -/
+theorem generators_independent (σ : List Bool) (h : Heap) (s1 s2 : LvSt) (hne : s1.q ≠ s2.q) :
+    ((lvSched h s1 s2 σ).filter (fun e => e.1)).map (fun e => e.2) = lvSolo h s1 (σ.count true)
+    ∧ ((lvSched h s1 s2 σ).filter (fun e => !e.1)).map (fun e => e.2) = lvSolo h s2 (σ.count false) :=
+  ⟨sched_first σ h s1 s2 hne, sched_second σ h s1 s2 hne⟩
+
+/-- the heap generator is `levelorder_iter`: on every protocol tree, `k` calls of `next()` on a fresh generator started
+at node `start` return the first `k` ids of the level order of that subtree (`levelIter`, which `levelorder_spec` /
+`levelorder_generations` characterise) and then StopIteration — so an abandoned traversal has yielded a prefix of the
+defining order; the driver runs this as kind `levelgen` -/
+theorem levelorder_generator_spec (toks : List String) (tree : T) (rest : List String) (par : Array Int) (start : Nat) (t : T)
+    (h : parseTree toks = some (tree, rest)) (hp : parsePar toks = some par) (hf : tree.find? start = some t)
+    (heap : Heap) (hk : heap.kids = kidsOf par) (q k : Nat) :
+    lvSolo heap ⟨q, .init start⟩ k = padTake k ((levelIter (fun _ => true) t).map T.id) := by
+  obtain ⟨hF, hid⟩ := protocol_faithful toks tree rest par start t h hp hf
+  rw [← hid]
+  exact solo_spec par t hF heap hk q k
+
+/-- both together: two level-order generators started anywhere in a protocol tree and interleaved arbitrarily each
+yield a prefix of their own defining order -/
+theorem levelorder_generators_interleaved (toks : List String) (tree : T) (rest : List String) (par : Array Int)
+    (a b : Nat) (ta tb : T) (h : parseTree toks = some (tree, rest)) (hp : parsePar toks = some par)
+    (hfa : tree.find? a = some ta) (hfb : tree.find? b = some tb) (σ : List Bool) :
+    ((lvSched (heapOf par) ⟨0, .init a⟩ ⟨1, .init b⟩ σ).filter (fun e => e.1)).map (fun e => e.2)
+      = padTake (σ.count true) ((levelIter (fun _ => true) ta).map T.id)
+    ∧ ((lvSched (heapOf par) ⟨0, .init a⟩ ⟨1, .init b⟩ σ).filter (fun e => !e.1)).map (fun e => e.2)
+      = padTake (σ.count false) ((levelIter (fun _ => true) tb).map T.id) := by
+  have hi := generators_independent σ (heapOf par) ⟨0, .init a⟩ ⟨1, .init b⟩ (by simp)
+  rw [hi.1, hi.2]
+  exact ⟨levelorder_generator_spec toks tree rest par a ta h hp hfa (heapOf par) rfl 0 _,
+    levelorder_generator_spec toks tree rest par b tb h hp hfb (heapOf par) rfl 1 _⟩
+
+/-- kernel-checked run: two generators on the heap of an array (with an unreachable 2-cycle), one from the seed, one
+from node 1, interleaved; the second is abandoned after two calls -/
+example : lvSched (heapOf #[-1, 0, 1, 0, 5, 4]) ⟨0, .init 0⟩ ⟨1, .init 1⟩ [true, false, true, false, true, true, true]
+    = [(true, some 0), (false, some 1), (true, some 1), (false, some 2), (true, some 3), (true, some 2), (true, none)] := by
+  decide
+
+end DendroModel.C15
+
+namespace DendroModel.C15
+open DendroModel DendroModel.C15.Aux DendroModel.C15.BuildAux DendroModel.C15.PtrAux DendroModel.C15.ApplyAux
+  DendroModel.C15.HeapAux
+
+/-- both heap generators (`levelorder_iter` = `lvNext`, `preorder_iter` = `pvNext`) keep their generator number, write
+only their own private list — never a node's child list, never another generator's list — and read only the node lists
+and their own list -/
+theorem generator_steps_local : Local lvNext ∧ Local pvNext := ⟨lv_local, pv_local⟩
+
+/-- independence for ANY two such step functions (same or different kinds): under every interleaving each generator
+returns exactly what it returns when it runs alone for as many calls -/
+theorem any_generators_independent (n1 n2 : Heap → LvSt → Heap × LvSt × Option Nat) (h1 : Local n1) (h2 : Local n2)
+    (σ : List Bool) (h : Heap) (s1 s2 : LvSt) (hne : s1.q ≠ s2.q) :
+    ((gSched n1 n2 h s1 s2 σ).filter (fun e => e.1)).map (fun e => e.2) = gSolo n1 h s1 (σ.count true)
+    ∧ ((gSched n1 n2 h s1 s2 σ).filter (fun e => !e.1)).map (fun e => e.2) = gSolo n2 h s2 (σ.count false) :=
+  ⟨gsched_first h1 h2 σ h s1 s2 hne, gsched_second h1 h2 σ h s1 s2 hne⟩
+
+/-- the pre-order heap generator is `preorder_iter`: `k` calls of `next()` return the first `k` ids of `preIter`, then
+StopIteration, on every protocol tree and start -/
+theorem preorder_generator_spec (toks : List String) (tree : T) (rest : List String) (par : Array Int) (start : Nat) (t : T)
+    (h : parseTree toks = some (tree, rest)) (hp : parsePar toks = some par) (hf : tree.find? start = some t)
+    (heap : Heap) (hk : heap.kids = kidsOf par) (q k : Nat) :
+    gSolo pvNext heap ⟨q, .init start⟩ k = padTake k ((preIter (fun _ => true) t).map T.id) := by
+  obtain ⟨hF, hid⟩ := protocol_faithful toks tree rest par start t h hp hf
+  rw [← hid]
+  exact psolo_spec par t hF heap hk q k
+
+/-- a pre-order generator at `a` and a level-order generator at `b` of a protocol tree, interleaved arbitrarily (what the
+driver runs as kind `gensched`): each yields a prefix of its own defining order -/
+theorem mixed_generators_interleaved (toks : List String) (tree : T) (rest : List String) (par : Array Int)
+    (a b : Nat) (ta tb : T) (h : parseTree toks = some (tree, rest)) (hp : parsePar toks = some par)
+    (hfa : tree.find? a = some ta) (hfb : tree.find? b = some tb) (σ : List Bool) :
+    ((gSched pvNext lvNext (heapOf par) ⟨0, .init a⟩ ⟨1, .init b⟩ σ).filter (fun e => e.1)).map (fun e => e.2)
+      = padTake (σ.count true) ((preIter (fun _ => true) ta).map T.id)
+    ∧ ((gSched pvNext lvNext (heapOf par) ⟨0, .init a⟩ ⟨1, .init b⟩ σ).filter (fun e => !e.1)).map (fun e => e.2)
+      = padTake (σ.count false) ((levelIter (fun _ => true) tb).map T.id) := by
+  have hi := any_generators_independent pvNext lvNext pv_local lv_local σ (heapOf par) ⟨0, .init a⟩ ⟨1, .init b⟩ (by simp)
+  rw [hi.1, hi.2, gSolo_lv]
+  exact ⟨preorder_generator_spec toks tree rest par a ta h hp hfa (heapOf par) rfl 0 _,
+    levelorder_generator_spec toks tree rest par b tb h hp hfb (heapOf par) rfl 1 _⟩
+
+example : gSched pvNext lvNext (heapOf #[-1, 0, 1, 0, 5, 4]) ⟨0, .init 0⟩ ⟨1, .init 0⟩ [true, false, true, false, true, false, true, false, true]
+    = [(true, some 0), (false, some 0), (true, some 1), (false, some 1), (true, some 2), (false, some 3), (true, some 3),
+       (false, some 2), (true, none)] := by decide
 
 end DendroModel.C15
